@@ -417,6 +417,26 @@ func (t *Table) SearchData(input QueryInput) ([]map[string]*types.Item, map[stri
 	return items, t.getLastKey(last, limit, count, scanned, sortedKeysSize, index)
 }
 
+// ValidateKeyCondition checks that the key condition of a Query addresses one partition of the table, or of the index
+// the Query names, the way DynamoDB requires it. Expressions handled by the native interpreter are not inspected.
+func (t *Table) ValidateKeyCondition(input QueryInput) error {
+	if t.UseNativeInterpreter && t.NativeInterpreter.HasMatcher(t.Name, interpreter.ExpressionTypeKey, input.KeyConditionExpression) {
+		return nil
+	}
+
+	ks := t.KeySchema
+	if index, ok := t.Indexes[input.Index]; ok {
+		ks = index.keySchema
+	}
+
+	err := t.LangInterpreter.ValidateKeyCondition(input.KeyConditionExpression, input.Aliases, ks.HashKey, ks.RangeKey)
+	if err != nil {
+		return types.NewError("ValidationException", err.Error(), nil)
+	}
+
+	return nil
+}
+
 func (t *Table) getLastKey(item map[string]*types.Item, limit, count, scanned, keysSize int64, index *index) map[string]*types.Item {
 	if !shouldReturnNextKey(item, count, scanned, limit, keysSize) {
 		return map[string]*types.Item{}
